@@ -20,7 +20,11 @@ func (basic *Basic) parse(p property) (err error) {
 	case xmpns.ModifyDate:
 		basic.ModifyDate, err = parseDate(p.Value())
 	case xmpns.Rating:
-		basic.Rating = int8(parseUint8(p.Value()))
+		if v := p.Value(); len(v) > 1 && v[0] == '-' {
+			basic.Rating = -int8(parseUint8(v[1:])) // -1: rejected
+		} else {
+			basic.Rating = int8(parseUint8(v))
+		}
 	default:
 		return ErrPropertyNotSet
 	}
